@@ -278,8 +278,17 @@ def _gen_solve(rng, i, tier):
         terms = [["as", False, 1e-2, g], ["at", t_, 1e-3, g]]
         solver = rng.choice(["PW", "PW", "NM"])
     x0 = [round(rng.uniform(-3, 3), 3) for _ in range(n)]
+    cog = [1e-12, rng.choice([20, 50])]
+    if rng.random() < 0.12:
+        # the ordinary stop condition and the collapse become true in the SAME generation (a start next to the optimum, equal windows): the run
+        # stops there; a collapse that is applied nevertheless would leave a final solution that does not satisfy it
+        t_ = rng.choice([0.0, 1.0, -1.0])
+        solver, g = rng.choice(["NM", "NM", "PW"]), rng.choice([2, 3, 5])
+        c, w, ties = [t_] * n, [1] * n, []
+        terms, cog = [["at", t_, 1e-2, g]], [1e-2, g]
+        x0 = [t_ + rng.choice([1e-4, -2e-4, 3e-4]) for _ in range(n)]
     return dict(kind="solve", solver=solver, n=n, w=w, c=c, ties=ties, tiegap=rng.choice([0.0, 0.0, 0.5]) if which == "asoff" else 0.0,
-                terms=terms, cog=[1e-12, rng.choice([20, 50])], x0=x0, seed=i, maxfun=rng.choice([3000, 20000]),
+                terms=terms, cog=cog, x0=x0, seed=i, maxfun=rng.choice([3000, 20000]),
                 strict=rng.random() < 0.15)
 
 
